@@ -60,10 +60,28 @@ impl Reorg {
 
     let mut wtx = index.begin_write()?;
 
-    let oldest_savepoint =
-      wtx.get_persistent_savepoint(wtx.list_persistent_savepoints()?.min().unwrap())?;
+    let Some(oldest_savepoint) = wtx.list_persistent_savepoints()?.min() else {
+      return Err(anyhow!(reorg::Error::Unrecoverable));
+    };
+
+    let oldest_savepoint = wtx.get_persistent_savepoint(oldest_savepoint)?;
 
     wtx.restore_savepoint(&oldest_savepoint)?;
+
+    let block_count = wtx
+      .open_table(HEIGHT_TO_BLOCK_HEADER)?
+      .range(0..)?
+      .next_back()
+      .transpose()?
+      .map(|(height, _header)| height.value() + 1)
+      .unwrap_or(0);
+
+    // the oldest savepoint must not contain any block of the abandoned branch,
+    // otherwise rolling back to it would detect the same reorg again, forever
+    if block_count > height.saturating_sub(depth) + 1 {
+      wtx.abort()?;
+      return Err(anyhow!(reorg::Error::Unrecoverable));
+    }
 
     Index::increment_statistic(&wtx, Statistic::Commits, 1)?;
     wtx.commit()?;
